@@ -273,6 +273,11 @@ class _ReusablePoolExecutor(ProcessPoolExecutor):
             # manager thread cannot complete the exit handshake with it.
             with self._processes_management_lock:
                 self._adjust_process_count()
+            # Wake the manager thread up so that it re-arms its wait with the
+            # sentinels of the new workers: otherwise the death of such a
+            # worker would go unnoticed until some unrelated event.
+            with self._shutdown_lock:
+                self._executor_manager_thread_wakeup.wakeup()
             # Wait for the new workers to be started. A worker that already
             # exited (idle timeout, crash) will never be alive again: do not
             # wait for it.
